@@ -543,6 +543,9 @@ func (o *operation) handle() {
 	if requireMessageForRequestLine {
 		// Go ahead and process first request message
 		switch err := o.readRequestMessage(nil, o.request.Body, &reqMsg); {
+		case errors.Is(err, io.EOF) && o.missingRequestMessage():
+			o.reportError(errNoRequestMessage())
+			return
 		case errors.Is(err, io.EOF):
 			// okay for the first message: means empty message data
 			reqMsg.markReady()
@@ -711,6 +714,18 @@ func (o *operation) reportError(err error) {
 	o.writer.WriteHeader(code)
 	trailers := o.client.protocol.encodeEnd(o, end, o.writer, true)
 	httpMergeTrailers(o.writer.Header(), trailers)
+}
+
+// missingRequestMessage reports whether a request stream that ends before its
+// first envelope is malformed: a stream of envelopes can be empty, but a method
+// that takes exactly one request message needs that message to be there.
+func (o *operation) missingRequestMessage() bool {
+	return o.clientEnveloper != nil && o.methodConf != nil &&
+		(o.methodConf.streamType == connect.StreamTypeUnary || o.methodConf.streamType == connect.StreamTypeServer)
+}
+
+func errNoRequestMessage() error {
+	return malformedRequestError(errors.New("request ended without a message"))
 }
 
 func (o *operation) readRequestMessage(rw *responseWriter, reader io.Reader, msg *message) error {
@@ -932,6 +947,12 @@ func (r *envelopingReader) prepareNext() error {
 		var envBytes envelopeBytes
 		_, err := io.ReadFull(r.r, envBytes[:])
 		if err != nil {
+			if errors.Is(err, io.EOF) && r.current == nil && r.rw.op.serverEnveloper == nil && r.rw.op.missingRequestMessage() {
+				// Without envelopes, the backend would take the empty body
+				// for an empty message that the client never sent.
+				err = errNoRequestMessage()
+				r.rw.reportError(err)
+			}
 			return err
 		}
 		env, err = r.rw.op.clientEnveloper.decodeEnvelope(envBytes)
@@ -1008,9 +1029,16 @@ func (r *transformingReader) Read(data []byte) (n int, err error) {
 			// preparer, we'll allow it and let the preparer produce a message from zero
 			// request bytes. The same goes for client protocols without envelopes: there,
 			// an empty body is the (only) request message, encoded in zero bytes.
-			if !r.consumedFirst && errors.Is(err, io.EOF) && (r.rw.op.clientReqNeedsPrep || r.rw.op.clientEnveloper == nil) {
+			switch {
+			case !r.consumedFirst && errors.Is(err, io.EOF) && (r.rw.op.clientReqNeedsPrep || r.rw.op.clientEnveloper == nil):
 				r.msg.markReady()
-			} else {
+			case !r.consumedFirst && errors.Is(err, io.EOF) && r.rw.op.serverEnveloper == nil && r.rw.op.missingRequestMessage():
+				// Without envelopes, the backend would take the empty body
+				// for an empty message that the client never sent.
+				r.err = errNoRequestMessage()
+				r.rw.reportError(r.err)
+				return 0, r.err
+			default:
 				r.err = err
 				return 0, err
 			}
